@@ -201,7 +201,7 @@ them above that size (same list as `c18ParEntries` in the harness) -/
 def parEntries : List String :=
   ["kzgopen", "kzgcommit", "kzgbatchopen", "multiexp", "fft", "sis", "batchscalarmul", "batchjactoaff", "iop", "vector",
    "codec", "plookupvec", "plookuptab", "permutation", "fri", "shplonk", "fflonk", "pedersen", "iopratio", "kzglagrange",
-   "vortex", "merkle"]
+   "polynomial", "vortex", "merkle"]
 
 def curves : List String :=
   ["bn254", "bls12-377", "bls12-381", "bls24-315", "bls24-317", "bw6-633", "bw6-761"]
